@@ -87,7 +87,7 @@ pub struct FramebufferTag {
     //  sane bootloader puts something illegal there at the moment. When we
     //  refactor this (newtype pattern?), we should also streamline other
     //  parts in the code base accordingly.
-    framebuffer_type: FramebufferTypeId,
+    framebuffer_type: u8,
 
     _padding: u16,
 
@@ -170,8 +170,9 @@ impl FramebufferTag {
 
         // TODO: We should use the newtype pattern instead or so to properly
         //  solve this.
-        let fb_type_raw = self.framebuffer_type as u8;
-        let fb_type = FramebufferTypeId::try_from(fb_type_raw)?;
+        // The raw byte comes from the bootloader. It is stored as `u8` and not
+        // as `FramebufferTypeId`, as unknown values must be reported as error.
+        let fb_type = FramebufferTypeId::try_from(self.framebuffer_type)?;
 
         match fb_type {
             FramebufferTypeId::Indexed => {
